@@ -25,6 +25,13 @@ func ConvertLabelQuery(terms []*v1alpha1.LabelTerm) ([]resource.LabelQueryOption
 			opts = append(opts, resource.NotMatches)
 		}
 
+		switch term.Op { //nolint:exhaustive
+		case v1alpha1.LabelTerm_EQUAL, v1alpha1.LabelTerm_LT, v1alpha1.LabelTerm_LTE, v1alpha1.LabelTerm_LT_NUMERIC, v1alpha1.LabelTerm_LTE_NUMERIC:
+			if len(term.Value) == 0 {
+				return nil, status.Errorf(codes.InvalidArgument, "label query operator %v requires a value", term.Op)
+			}
+		}
+
 		switch term.Op {
 		case v1alpha1.LabelTerm_EQUAL:
 			labelOpts = append(labelOpts, resource.LabelEqual(term.Key, term.Value[0], opts...))
